@@ -1034,6 +1034,8 @@ def table_attr(it, t, name):
             attrs = dict(t.cols)
             attrs["Index"] = t.index_e
             attrs["name"] = t.index_e
+            cols_ = dict(t.cols)
+            attrs["get"] = Native(lambda it, k, d=None: cols_.get(k, d), name="row.get")
             row = ObjVal(None, attrs)
             return RowsIter(t, row if name == "itertuples" else (t.index_e, row))
         return nat(rows)
